@@ -35,7 +35,7 @@ State = A.State
 
 def mk_cfg(p):
     cfg = gen.simple_cfg(dh=p.get('dh', '19'), mode=p.get('mode', 'transport'), proto=p.get('proto', 'esp'),
-                         n_protect=p.get('n', 1), pfs=p.get('pfs'), v6=bool(p.get('v6')))
+                         n_protect=p.get('n', 1), pfs=p.get('pfs'), v6=bool(p.get('v6')), mixed=bool(p.get('mixed')))
     if p.get('rsa'):
         cfg['auth_a'] = cfg['auth_b'] = 'rsa'
     if p.get('ike_dh_mismatch'):
@@ -291,7 +291,8 @@ cfg_params = st.fixed_dictionaries({
     'dh': st.sampled_from(['19', '19', '19', '20', '14']), 'mode': st.sampled_from(['transport', 'tunnel']),
     'proto': st.sampled_from(['esp', 'esp', 'ah']), 'n': st.sampled_from([1, 1, 2]),
     'pfs': st.sampled_from([None, None, '19']), 'v6': st.sampled_from([False, False, True]),
-    'rsa': st.sampled_from([False, False, False, True]), 'ike_dh_mismatch': st.sampled_from([False, False, True])})
+    'rsa': st.sampled_from([False, False, False, True]), 'ike_dh_mismatch': st.sampled_from([False, False, True]),
+    'mixed': st.sampled_from([False, False, False, True])})
 
 
 def walk_ops(lossy):
